@@ -376,6 +376,75 @@ fn wraparound(t: &mut Trace, rng: &mut Rng) -> u64 {
     n
 }
 
+/// saturation histories: one thread is driven until EVERY memo slot the hooks can see is filled (30 face triangles, 240
+/// spherical triangles: all faces, all sectors, reflected and not -- boundaries of the cells that straddle the face edges
+/// fill the reflected ones), then a catalogue of calls is answered on that saturated thread and compared with fresh
+/// threads.  Counters, capacity limits and "table full" paths only show on a thread that has seen everything.
+fn saturation(t: &mut Trace, tier: &str, rng: &mut Rng) -> (u64, u64) {
+    let rounds = if tier == "thorough" { 4 } else { 1 };
+    let (mut n, mut filled_min) = (0u64, 270u64);
+    for round in 0..rounds {
+        // the catalogue: lookups, centres and boundaries on all faces, at several resolutions, incl. edge-straddling cells
+        let mut calls: Vec<(u8, f64, f64, i32)> = vec![];   // (kind, lon, lat, res)
+        for _ in 0..(if tier == "thorough" { 400 } else { 150 }) {
+            let z = 2.0 * rng.f64() - 1.0;
+            calls.push(((rng.below(3)) as u8, 360.0 * rng.f64() - 180.0, z.asin().to_degrees(), [0, 1, 2, 3, 6, 11, 19, 29][rng.below(8) as usize]));
+        }
+        for sp in crate::geo::special_points().iter().take(160) { calls.push((2, sp.longitude(), sp.latitude(), [2, 5, 9][rng.below(3) as usize])); }
+        let answer = |c: &(u8, f64, f64, i32)| -> String {
+            let p = LonLat::new(c.1, c.2);
+            match c.0 { 0 => format!("{:x?}", a5::lonlat_to_cell(p, c.3)),
+                        1 => format!("{:?}", a5::lonlat_to_cell(p, c.3).and_then(a5::cell_to_lonlat).map(|q| (q.longitude().to_bits(), q.latitude().to_bits()))),
+                        _ => format!("{:?}", a5::lonlat_to_cell(p, c.3).and_then(|id| a5::cell_to_boundary(id, None)).map(|b| b.iter().map(|q| (q.longitude().to_bits(), q.latitude().to_bits())).collect::<Vec<_>>())) }
+        };
+        let calls2 = calls.clone();
+        let seed = rng.next();
+        let (filled, warm, failed_calls): (u64, Vec<String>, Vec<(u8, f64, f64, i32)>) = in_fresh_thread(move || {
+            let mut r2 = Rng::new(seed);
+            // fill: boundaries of every cell of resolutions 0..3 (straddling cells reflect), then random lookups until full
+            let mut failed: Vec<(u8, f64, f64, i32)> = vec![];
+            for r in 0..=3 { for id in all_cells(r) {
+                let b = a5::cell_to_boundary(id, None); let c = a5::cell_to_lonlat(id);
+                // a call that fails while the thread fills up is itself a finding if a fresh thread answers it
+                if let (true, Ok(cc)) = (b.is_err(), &c) { if failed.len() < 40 { failed.push((2, cc.longitude(), cc.latitude(), r)); } }
+            } }
+            let full = |v: &a5::verif::CacheView| v.face_slots.iter().filter(|x| **x).count() + v.spherical_slots.iter().filter(|x| **x).count();
+            let mut budget = 20000;
+            while full(&a5::verif::cache_view()) < 270 && budget > 0 {
+                let z = 2.0 * r2.f64() - 1.0;
+                let p = LonLat::new(360.0 * r2.f64() - 180.0, z.asin().to_degrees());
+                let rr = 2 + (budget % 5);
+                match a5::lonlat_to_cell(p, rr) { Ok(id) => { if a5::cell_to_boundary(id, None).is_err() && failed.len() < 40 { failed.push((2, p.longitude(), p.latitude(), rr)); } }
+                                                   Err(_) => { if failed.len() < 40 { failed.push((0, p.longitude(), p.latitude(), rr)); } } }
+                budget -= 1;
+            }
+            let filled = full(&a5::verif::cache_view()) as u64;
+            let mut all = calls2.clone(); all.extend(failed.iter().copied());
+            (filled, all.iter().map(|c| answer(c)).collect(), failed)
+        });
+        calls.extend(failed_calls.iter().copied());
+        filled_min = filled_min.min(filled);
+        // cold answers: a fresh thread per block of 20 calls (a block shares little), in reverse order
+        let mut cold = vec![String::new(); calls.len()];
+        for (b, chunk) in calls.chunks(20).enumerate() {
+            let ch: Vec<(u8, f64, f64, i32)> = chunk.to_vec();
+            let ans: Vec<String> = in_fresh_thread(move || ch.iter().rev().map(|c| answer(c)).collect::<Vec<_>>().into_iter().rev().collect());
+            for (i, a) in ans.into_iter().enumerate() { cold[b * 20 + i] = a; }
+        }
+        for (i, c) in calls.iter().enumerate() {
+            if warm[i] != cold[i] || i % 3 == 0 || i >= calls.len() - failed_calls.len() {
+                let single = { let cc = *c; in_fresh_thread(move || answer(&cc)) };
+                t.emit(json!({"op": "purity", "call": format!("kind {} at ({:?},{:?}) res {} on a saturated thread (round {}, {} of 270 memo slots filled)", c.0, c.1, c.2, c.3, round, filled),
+                              "results": [fnv(&single), fnv(&cold[i]), fnv(&warm[i])], "contexts": ["cold thread", "fresh thread, block of 20", "saturated thread"],
+                              "cold_value": single.chars().take(120).collect::<String>()}));
+                n += 1;
+            }
+        }
+        t.cut();
+    }
+    (n, filled_min)
+}
+
 pub fn gen_c13(tier: &str, seed: u64, out: &str, mc: Option<&str>) -> Value {
     let mut rng = Rng::new(seed ^ 0xC13);
     let mut t = Trace::new(out, "c13", 300);
@@ -512,10 +581,11 @@ pub fn gen_c13(tier: &str, seed: u64, out: &str, mc: Option<&str>) -> Value {
     let (n_struct_pairs, n_struct_calls) = structured_pairs(&mut t, tier, &mut rng);
     let n_wrap = wraparound(&mut t, &mut rng);
     let n_track = tracks(&mut t, tier, &mut rng);
+    let (n_sat, sat_filled) = saturation(&mut t, tier, &mut rng);
     n_ctx += 3 * n_struct_calls;
     t.finish();
     json!({"files": t.files, "events": t.events, "key_pairs": n_pairs, "histories": n_hist, "structured_cell_pairs": n_struct_pairs,
-           "structured_pair_calls": n_struct_calls, "wraparound_scenarios": n_wrap, "track_events": n_track, "history_steps": n_steps, "public_calls": n_pure,
+           "structured_pair_calls": n_struct_calls, "wraparound_scenarios": n_wrap, "track_events": n_track, "saturation_events": n_sat, "saturated_thread_memo_slots_filled_of_270": sat_filled, "history_steps": n_steps, "public_calls": n_pure,
            "public_call_contexts": n_ctx, "cold_processes": n_proc,
            "samples": [pair_event(keys[3], keys[123], 0, 1, &cold), json!({"call": names[17], "contexts": per_call[17].len()})]})
 }
